@@ -289,5 +289,21 @@ func All(quick bool) []Params {
 			Params{Buf: b, Senders: [][]int{{1, 2}, {11}}, Try: true, CloseErr: true, Closer: "thread", RecvThenClose: -1},
 		)
 	}
+	// buffers far larger than the exhaustive part uses, full when the sender closes (explored with
+	// few preemptions: the point is the number of buffered values, not the interleaving)
+	seq := func(from, n int) []int {
+		var v []int
+		for i := 0; i < n; i++ {
+			v = append(v, from+i)
+		}
+		return v
+	}
+	out = append(out,
+		Params{Buf: 12, Senders: [][]int{seq(1, 12)}, Closer: "last", RecvThenClose: -1},
+		Params{Buf: 12, Senders: [][]int{seq(1, 12)}, CloseErr: true, Closer: "last", RecvThenClose: -1},
+		Params{Buf: 5, Senders: [][]int{seq(1, 7)}, Closer: "last", RecvThenClose: -1},
+		Params{Buf: 6, Senders: [][]int{seq(1, 5), {101, 102}}, Try: true, CloseErr: true, Closer: "thread", RecvThenClose: -1},
+		Params{Buf: 33, Senders: [][]int{seq(1, 40)}, Closer: "last", RecvThenClose: -1},
+	)
 	return out
 }
